@@ -5,3 +5,4 @@ CONSTANTS
 INVARIANT TInv
 POSTCONDITION Accepted
 CHECK_DEADLOCK FALSE
+VIEW TView
